@@ -10,6 +10,7 @@ import (
 	"sort"
 	"strings"
 
+	"tkestack.io/galaxy/verifsim/core"
 	"tkestack.io/galaxy/verifsim/simkube"
 )
 
@@ -313,7 +314,7 @@ func (w *World) oracleOnCloudAssign(node, ip string) {
 	}
 }
 
-func (w *World) oracleOnCloudUnassign(node, ip string) {
+func (w *World) oracleOnCloudUnassign(t *core.Task, node, ip string) {
 	if w.armed("C10") {
 		// "every IP of a bound live pod is assigned to that pod's node" is an invariant, not only a condition at bind
 		for _, p := range w.livePodsWithIP(ip) {
@@ -327,7 +328,17 @@ func (w *World) oracleOnCloudUnassign(node, ip string) {
 	if w.armed("C04") {
 		for _, p := range w.livePodsWithIP(ip) {
 			if w.inNewestConf(ip) {
-				w.fail("C04.live-ip-unassigned", w.c04Key("live-ip-unassigned", p.Key, 1),
+				key := w.c04Key("live-ip-unassigned", p.Key, 1)
+				if al := w.M.allocs[ip]; key == "live-ip-unassigned" && t != nil && al != nil && t.Born < al.Step {
+					// the unassigning task is older than the pod's allocation and the tables were rebuilt from the store in
+					// between: it acts on what it read before the rebuild (known finding, see known_findings.json)
+					for _, st := range w.rebuilds {
+						if st > t.Born && st < al.Step {
+							key = "live-ip-unassigned:stale-unbind-across-table-rebuild"
+						}
+					}
+				}
+				w.fail("C04.live-ip-unassigned", key,
 					"UnAssignIP(%s from %s) while live pod %s (uid %s) on node %s holds it", ip, node, p.key(), p.UID, p.Node)
 				return
 			}
@@ -696,7 +707,7 @@ func (w *World) quiescentChecks(tag string, afterResync bool) {
 				// documented to retry the deletion at the next change of the configuration only)
 				for _, o := range w.K.List("floatingips", "") {
 					// (an administrator's labelled object for an address outside the configuration is the administrator's business)
-					if f := decodeFip(o); !w.inNewestConf(f.IP) && !f.Reserved {
+					if f := decodeFip(o); !w.inNewestConfRaw(f.IP) && !f.Reserved {
 						w.fail("C09.deconfigured-allocation-not-dropped", "deconfigured-allocation-not-dropped",
 							"the newest configuration (version %d) is in force and does not contain %s, yet its FloatingIP object (key %q) still exists", len(w.confVers)-1, f.IP, f.Key)
 						break
